@@ -35,3 +35,33 @@ def _d2e(us, tz=None):
     if abs(r * 1000 - int(us)) >= 1000:
         return ['datetime_to_utc_epoch(%r) = %r is more than one millisecond away' % (dt, r)]
     return []
+
+
+@oracle('evaluation_result_roundtrip')
+def _eval_rt(clsname, **kw):
+    import json
+    import os
+    import tempfile
+    import csep
+    import csep.models as models
+    cls = getattr(models, clsname)
+    obj = cls(test_distribution=[0.25, 0.5], name='N-Test', observed_statistic=1.5, quantile=(0.1, 0.9), status='normal',
+              sim_name='fc', obs_name='cat', min_mw=4.95)
+    with tempfile.TemporaryDirectory() as d:
+        fn = os.path.join(d, 'r.json')
+        with open(fn, 'w') as fh:
+            json.dump(obj.to_dict(), fh)
+        out = call(csep.load_evaluation_result, fn)
+    if out[0] == 'raise':
+        return ['load_evaluation_result of a %s raised %s' % (clsname, _exc(out))]
+    r = out[1]
+    bad = []
+    if type(r) is not cls:
+        bad.append('loaded as %s, written as %s' % (type(r).__name__, clsname))
+    for f, v in (('name', 'N-Test'), ('status', 'normal'), ('observed_statistic', 1.5), ('quantile', [0.1, 0.9]),
+                 ('test_distribution', [0.25, 0.5]), ('sim_name', 'fc'), ('obs_name', 'cat'), ('min_mw', 4.95)):
+        got = getattr(r, f)
+        got = list(got) if isinstance(got, (list, tuple)) else got
+        if got != v:
+            bad.append('field %s: %r != %r' % (f, got, v))
+    return bad
